@@ -5345,7 +5345,8 @@ class Entity(object, metaclass=EntityMeta):
             if obj2._status_ != 'marked_to_delete' or obj2 in dependent_objects: continue
             if obj2._row_refers_to_(obj):
                 obj2._save_referring_rows_first_(dependent_objects)
-                obj2._save_(dependent_objects)
+                # (saving those rows may have come round to obj2 itself)
+                if obj2._status_ == 'marked_to_delete': obj2._save_(dependent_objects)
     def _row_refers_to_(obj, obj2):
         dbvals = obj._dbvals_ or {}
         for attr in obj._attrs_with_columns_:
